@@ -19,8 +19,9 @@ pub fn replay_room_definition_changed(room: crate::database::room::Room, key: Ve
         )
         .await;
         drop(iqs);
+        // the hook forwards admissions from the (now closed) room channel: read until the forwarder is done
         let mut out = vec![];
-        while let Ok(r) = admitted_rx.try_recv() {
+        while let Some(r) = admitted_rx.recv().await {
             out.push(r);
         }
         let _ = event_rx.try_recv();
@@ -141,5 +142,59 @@ pub fn replay_handshake(sc: &serde_json::Value) -> serde_json::Value {
             "bound_is_remote": key.eq(&remote_key),
             "connected_is_remote": connected_is_remote,
         })
+    })
+}
+
+/// C08 (former member): the real InboundQueryService task serves a connection for which `room` was admitted earlier; then the
+/// real process_local_event handles RoomDefinitionChanged(room) for the connection's key; is a RoomNode request for that room
+/// still answered with data afterwards ?
+pub fn replay_room_revocation(room: crate::database::room::Room, key: Vec<u8>) -> serde_json::Value {
+    use crate::synchronisation::peer_outbound_service::{InboundQueryService, RemotePeerHandle};
+    use serde_json::json;
+    let rt = tokio::runtime::Builder::new_multi_thread().enable_all().worker_threads(2).build().unwrap();
+    rt.block_on(async move {
+        let base = std::env::var("VERIF_DATA_DIR").unwrap_or_else(|_| "/var/cache/discret-verif/data".to_string());
+        let path: std::path::PathBuf = format!("{}/c08rev/{}", base, crate::security::base64_encode(&crate::security::random32()[0..6])).into();
+        std::fs::create_dir_all(&path).unwrap();
+        let (db, own_key, _) = crate::database::graph_database::GraphDatabaseService::start(
+            "verif c08 revocation",
+            "ns { Person{ name:String } }",
+            &crate::security::random32(),
+            &crate::security::random32(),
+            path,
+            &crate::configuration::Configuration::default(),
+            crate::event_service::EventService::new(),
+        )
+        .await
+        .unwrap();
+        let (reply, mut answers) = mpsc::channel::<Answer>(16);
+        let (query_sender, query_receiver) = mpsc::channel::<QueryProtocol>(4);
+        let (pcs_sender, _pcs_rx) = mpsc::channel::<crate::peer_connection_service::PeerConnectionMessage>(8);
+        let remote_key = Arc::new(Mutex::new(key));
+        let conn_ready = Arc::new(AtomicBool::new(true));
+        let mut allowed = HashSet::new();
+        allowed.insert(room.id);
+        let iqs = InboundQueryService::start(
+            crate::security::HardwareFingerprint { id: crate::security::new_uid(), name: "hw".to_string() },
+            [7; 32],
+            crate::security::new_uid(),
+            RemotePeerHandle { allowed_room: allowed, db, verifying_key: own_key, reply },
+            query_receiver,
+            PeerConnectionService { sender: pcs_sender },
+            remote_key.clone(),
+            conn_ready,
+        );
+        let rid = room.id;
+        let served = |a: Option<Answer>| a.map(|a| a.success).unwrap_or(false);
+        query_sender.send(QueryProtocol { id: 1, query: Query::RoomNode(rid) }).await.unwrap();
+        let before = served(tokio::time::timeout(std::time::Duration::from_secs(5), answers.recv()).await.ok().flatten());
+        let (event_sender, mut event_rx) = mpsc::channel::<RemoteEvent>(8);
+        let remote_rooms: HashSet<Uid> = HashSet::new();
+        let _ = LocalPeerService::process_local_event(LocalEvent::RoomDefinitionChanged(Arc::new(room)), &remote_key, &event_sender, &remote_rooms, &iqs).await;
+        let _ = event_rx.try_recv();
+        tokio::time::sleep(std::time::Duration::from_millis(60)).await;
+        query_sender.send(QueryProtocol { id: 2, query: Query::RoomNode(rid) }).await.unwrap();
+        let after = served(tokio::time::timeout(std::time::Duration::from_secs(5), answers.recv()).await.ok().flatten());
+        json!({"status": "done", "served_before": before, "served_after": after})
     })
 }
